@@ -41,6 +41,7 @@ func runC17(c *Ctx) {
 	c17ResolverFileKey(c)
 	c17Keywords(c)
 	c17TemplateNilChains(c)
+	c17ErrorResultFieldChecked(c)
 }
 
 // c17Materialise: the generator runs and its output type-checks for every registered configuration (shared with C18 and C19:
